@@ -111,8 +111,6 @@ def quirks():
             return (not exc) or isinstance(e, exc) or type(e).__name__ in [getattr(x, '__name__', x) for x in exc]
         return False
     q = {}
-    q['q_size0_blas'] = raises(lambda: odl.rn(0).zero().norm())
-    q['q_size0_inf'] = raises(lambda: odl.rn(0, exponent=INF).zero().norm(), ValueError)
     try:
         v = odl.uniform_discr(0, 2, 3, nodes_on_bdry=True).one().norm() ** 2
         q['q_unweighted_skips'] = abs(v - 3.0) < 1e-9
@@ -120,21 +118,14 @@ def quirks():
         q['q_unweighted_skips'] = True
     q['q_ps2_via_inner'] = raises(lambda: odl.ProductSpace(odl.rn(3, exponent=1), 2).one().norm(),
                                   NotImplementedError)
-    q['q_ps_empty_raises'] = raises(lambda: odl.ProductSpace(field=odl.RealNumbers()).zero().norm(), IndexError)
-    try:
-        q['q_size0d_zero'] = (odl.rn(()).one().norm() == 0.0)
-    except Exception:
-        q['q_size0d_zero'] = True
     _QUIRKS = q
     return q
 
 
 def quirks_term():
     q = quirks()
-    return ('{| q_size0_blas := %s; q_size0_inf := %s; q_unweighted_skips := %s; q_ps2_via_inner := %s; '
-            'q_ps_empty_raises := %s; q_size0d_zero := %s |}'
-            % tuple(C.b(q[k]) for k in ('q_size0_blas', 'q_size0_inf', 'q_unweighted_skips', 'q_ps2_via_inner',
-                                        'q_ps_empty_raises', 'q_size0d_zero')))
+    return ('{| q_unweighted_skips := %s; q_ps2_via_inner := %s |}'
+            % (C.b(q['q_unweighted_skips']), C.b(q['q_ps2_via_inner'])))
 
 
 # ------------------------------------------------------------- space trees
@@ -227,9 +218,7 @@ class TensorLeaf(Node):
         self.space = odl.tensor_space(shape, **kw)
         self.src = 'odl.tensor_space(%r, %s)' % (tuple(shape), _kwsrc(kw))
         self.kw = kw
-        zd = (shape == ())
-        blas = dtype in ('float32', 'float64', 'complex64', 'complex128')   # _BLAS_DTYPES
-        self.coq = '(SLeaf (LTensor %s %s %s %s))' % (C.b(blas), C.b(zd), wq, expo(p))
+        self.coq = '(SLeaf (LTensor %s %s))' % (wq, expo(p))
         self.desc = {'kind': 'tensor', 'shape': list(shape), 'dtype': dtype, 'weighting': wkind,
                      'exponent': str(p)}
         self.rtol = 1e-5 if dtype == 'float32' else 1e-10
@@ -325,7 +314,7 @@ class DiscrLeaf(Node):
             else:
                 axq.append('{| ax_n := %s; ax_a := %s; ax_b := %s; ax_g0 := %s; ax_g1 := %s |}'
                            % (nat(s[1]), C.q(s[2]), C.q(s[3]), C.q(s[4]), C.q(s[5])))
-        self.coq = '(SLeaf (LDiscr true %s %s %s))' % (C.lst(axq), wq, expo(p))
+        self.coq = '(SLeaf (LDiscr %s %s %s))' % (C.lst(axq), wq, expo(p))
         self.desc = {'kind': 'discr', 'axes': [list(map(str, s)) for s in specs], 'dtype': dtype,
                      'weighting': wkind, 'exponent': str(p)}
         self.rtol = 1e-5 if dtype == 'float32' else 1e-10
@@ -435,6 +424,8 @@ class ProdNode(Node):
 
 
 def rand_leaf(rng, p, tier, dtype='float64'):
+    if dtype == 'mixed':
+        dtype = rng.choice(['float32', 'float64'])
     if rng.random() < 0.5:
         for _ in range(20):
             lf = DiscrLeaf(rng, p, dtype=dtype)
@@ -445,11 +436,10 @@ def rand_leaf(rng, p, tier, dtype='float64'):
 
 def rand_tree(rng, depth, tier, p=None, coherent=None, dtype=None):
     """coherent: probability that children take exponent 2 under an exponent-2 parent (so that inner exists).
-    One dtype per tree: nested product spaces with mixed dtypes raise AttributeError in inner/norm
-    (finding pspace-nested-mixed-dtype-inner-raises, probed separately)."""
+    dtype: one dtype for the whole tree, or 'mixed' (float32 and float64 leaves in one tree; repaired by e2b9c08)."""
     p = p if p is not None else rng.choice(EXPOS)
     if dtype is None:
-        dtype = 'float32' if rng.random() < 0.1 else 'float64'
+        dtype = rng.choice(['float32', 'mixed', 'mixed'] + ['float64'] * 12)
     if depth == 0:
         return rand_leaf(rng, p, tier, dtype)
     pp = rng.choice([1, 2, 2, 2, INF, 3])
@@ -515,10 +505,7 @@ def sp_cases(rng, tier):
     # non-BLAS dtype (np.linalg.norm branch of _norm_default): integer spaces, incl. size 0
     for p, wk, shape in itertools.product(EXPOS, ['none', 'const', 'array'], [(0,), (3,), (2, 2)]):
         node = TensorLeaf(rng, p, shape=shape, wkind=wk, dtype='int64')
-        # int dtype x array weighting x finite p != 2: np.power(..., out=int array) raises
-        # (finding tensor-int-array-weighting-pnorm-raises, probed separately)
-        ops = ('inner',) if (wk == 'array' and p not in (2, INF)) else ('inner', 'norm', 'dist')
-        _add_ops(cs, rng, node, qt, 1, kinds=['int'], ops=ops)
+        _add_ops(cs, rng, node, qt, 1, kinds=['int'])
     # array weights are not checked for positivity: negative entries reach the
     # 'norm_squared < 0 -> 0' compensation of ArrayWeighting.norm (exponent 2) and max(w|x|) (inf)
     for p in (2, 2, 2, INF, INF):
@@ -679,7 +666,7 @@ def partition_cases(rng, tier):
         sp = node.space
         fl = _scaling_func_list(sp.partition.boundary_cell_fractions, exponent=1.0)
         w = apply_on_boundary(np.ones(sp.shape), func=fl, only_once=False)
-        axq = node.coq[len('(SLeaf (LDiscr true '):]
+        axq = node.coq[len('(SLeaf (LDiscr '):]
         axq = axq[:axq.index('] ') + 1]
         term = ('{| v_axes := %s; v_vol := %s; v_ext := %s; v_w := %s |}'
                 % (axq, C.q(float(sp.cell_volume)), C.q(float(np.prod(sp.partition.extent))), qlist(w)))
@@ -779,26 +766,21 @@ def _walk(space):
 
 
 def known_key(space):
-    """Key of the recorded finding whose trigger is present in this space tree (None if none)."""
+    """Key of the OPEN recorded finding whose trigger is present in this space tree (None if none).
+    (Size-0 / 0-d tensors, empty and mixed-dtype product spaces are repaired: no key, a failure there
+    is a violation.)"""
     import odl
     for sp in _walk(space):
         if isinstance(sp, odl.ProductSpace):
-            if len(sp) == 0:
-                return 'pspace-empty-raises'
-            if sp.exponent == 2.0 and any(c.exponent != 2.0 for c in sp.spaces):
+            if len(sp) and sp.exponent == 2.0 and any(c.exponent != 2.0 for c in sp.spaces):
                 return 'pspace-exp2-over-exp1-components'
-        else:
-            if sp.shape == ():
-                return 'tensor-0d-norm-zero'
-            if sp.size == 0:
-                return 'tensor-size0-norm-raises'
-            if isinstance(sp, odl.DiscretizedSpace):
-                wt = sp.tspace.weighting
-                fr = np.array(sp.partition.boundary_cell_fractions)
-                if getattr(wt, 'const', None) == 1.0 and sp.exponent != INF and not np.allclose(fr, 1.0):
-                    return 'discr-unit-cell-volume-skips-bdry-fractions'
-                if np.any((np.abs(fr - 1.0) <= 1.001e-5) & (fr != 1.0) & (np.abs(fr - 1.0) > 1e-12)):
-                    return 'discr-bdry-fraction-isclose-snap'
+        elif isinstance(sp, odl.DiscretizedSpace):
+            wt = sp.tspace.weighting
+            fr = np.array(sp.partition.boundary_cell_fractions)
+            if getattr(wt, 'const', None) == 1.0 and sp.exponent != INF and not np.allclose(fr, 1.0):
+                return 'discr-unit-cell-volume-skips-bdry-fractions'
+            if np.any((np.abs(fr - 1.0) <= 1.001e-5) & (fr != 1.0) & (np.abs(fr - 1.0) > 1e-12)):
+                return 'discr-bdry-fraction-isclose-snap'
     return None
 
 
